@@ -380,7 +380,7 @@ func runC10(c *Ctx) {
 				return false
 			}
 			par, ok := call.Call.Value.(*ssa.Parameter)
-			return ok && par.Name() == fn.Params[2].Name()
+			return ok && par == fn.Params[2]
 		}
 		fins := findInstrs(fn, isFinish)
 		if len(fins) < 2 {
@@ -499,7 +499,7 @@ func runC10(c *Ctx) {
 		if len(numInGuards) == 0 {
 			c.Ob("C10-D6", "sio.checkAckFunc/rejects-no-params", caf.Pos(), false, "checkAckFunc no longer tests NumIn() < 1 for handlers that take an error")
 		} else {
-			as := append(numInGuards, Assume{regexpQuote(caf.Params[1].Name()), true})
+			as := append(numInGuards, Assume{regexpQuote(vname(caf.Params[1])), true})
 			r, trail := PrunedCanReach(caf, nil, as, func(in ssa.Instruction) bool {
 				ret, ok := in.(*ssa.Return)
 				if !ok || len(ret.Results) != 1 {
